@@ -1,0 +1,39 @@
+package tax_test
+
+import (
+	"testing"
+
+	"github.com/invopop/gobl/addons/es/tbai"
+	"github.com/invopop/gobl/num"
+	"github.com/invopop/gobl/tax"
+	"github.com/stretchr/testify/assert"
+)
+
+func TestTotalValidate(t *testing.T) {
+	tt := &tax.Total{
+		Categories: []*tax.CategoryTotal{
+			{
+				Code: tax.CategoryVAT,
+				Rates: []*tax.RateTotal{
+					{
+						Ext:    tax.Extensions{tbai.ExtKeyExemption: "E1"},
+						Base:   num.MakeAmount(10000, 2),
+						Amount: num.MakeAmount(0, 2),
+					},
+				},
+				Amount: num.MakeAmount(0, 2),
+			},
+		},
+		Sum: num.MakeAmount(0, 2),
+	}
+	assert.NoError(t, tt.Validate())
+
+	tt.Categories[0].Rates[0].Ext = tax.Extensions{tbai.ExtKeyExemption: "ZZZ"}
+	assert.ErrorContains(t, tt.Validate(), "categories: (0: (rates: (0: (ext: (es-tbai-exemption: value 'ZZZ' invalid.).).).).)")
+
+	tt.Categories[0].Rates[0].Ext = tax.Extensions{"zz-undefined-key": "E1"}
+	assert.ErrorContains(t, tt.Validate(), "zz-undefined-key: undefined")
+
+	var nt *tax.Total
+	assert.NoError(t, nt.Validate())
+}
